@@ -83,6 +83,15 @@ TransCalls(x) ==
   \cup {[op |-> "DenseRT", dst |-> 2, x |-> x, v |-> v] : v \in 0..7}
   \cup {[op |-> "BitSetRT", dst |-> 2, x |-> x]}
 
+SerialCalls(x) ==
+  {[op |-> "Ser", x |-> x, v |-> v] : v \in 0..3}
+  \cup {[op |-> "Load", dst |-> d, x |-> x, v |-> v, w |-> w, j |-> j] : d \in {1, 2}, v \in 0..5, w \in {0, 1}, j \in {0, 1, 4, 6}}
+  \cup {[op |-> "WriteFail", x |-> x, v |-> v, w |-> w] : v \in 0..3, w \in {0, 1}}
+  \cup {[op |-> "Freeze", x |-> x, v |-> v] : v \in 0..3}
+  \cup {[op |-> "FrozenRT", dst |-> d, x |-> x, v |-> v] : d \in {1, 2}, v \in {0, 1}}
+LegalCalls ==
+  {[op |-> "LoadLegal", dst |-> 2, as |-> SetToSeq(S), v |-> v, w |-> w, j |-> 4] : S \in SUBSET A, v \in 0..63, w \in 0..4}
+
 AggOps == {"FastOr", "HeapOr", "ParOr", "ParHeapOr", "FastAnd", "ParAnd", "HeapXor"}
 Lists == UNION {[1..n -> 1..4] : n \in 0..MaxList}
 AggCalls ==
@@ -96,7 +105,8 @@ Eff(c, k) == IF k.op = "SelectAuto" THEN c ELSE Effect(U, c, k)
 Init ==
   /\ hist = <<>>
   /\ CASE Mode = "pairs" -> \E S1, S2 \in SUBSET A : content = [Empty EXCEPT ![1] = S1, ![2] = S2]
-       [] Mode = "step" -> \E S1 \in SUBSET A : content = [Empty EXCEPT ![1] = S1]
+       [] Mode \in {"step", "serial"} -> \E S1 \in SUBSET A : content = [Empty EXCEPT ![1] = S1]
+       [] Mode = "legal" -> content = Empty
        [] Mode = "agg" -> \E S1, S2, S3 \in SUBSET A : content = [Empty EXCEPT ![1] = S1, ![2] = S2, ![3] = S3]
        [] Mode = "hist" -> content = Empty
 
@@ -104,21 +114,29 @@ Calls ==
   CASE Mode = "pairs" -> PairCalls
     [] Mode = "step" -> MutCalls(1) \cup QueryCalls(1) \cup TransCalls(1)
     [] Mode = "agg" -> AggCalls
+    [] Mode = "serial" -> SerialCalls(1)
+    [] Mode = "legal" -> LegalCalls
     [] Mode = "hist" -> MutCalls(1) \cup MutCalls(2) \cup
                         {[op |-> o, x |-> x, y |-> 3 - x] : o \in BinOps, x \in {1, 2}}
 
 Next ==
-  /\ Len(hist) < Depth
-  /\ \E k \in Calls :
-       /\ content' = Eff(content, k)
-       /\ hist' = Append(hist, k)
+  \/ /\ Len(hist) < Depth
+     /\ \E k \in Calls :
+          /\ content' = Eff(content, k)
+          /\ hist' = Append(hist, k)
+  \/ \* hist mode: a completed history is emitted exactly once, by the step that closes it
+     /\ Mode = "hist" /\ Len(hist) = Depth
+     /\ PrintT(ToJson([st |-> Struct, calls |-> hist]))
+     /\ hist' = Append(hist, [op |-> "End"])
+     /\ content' = content
 
 Spec == Init /\ [][Next]_vars
 
 \* ---- emission of scripts for the replayer -----------------------------------------------------------
 Prefix(c) ==
   CASE Mode = "pairs" -> <<Build(1, c[1]), Build(2, c[2])>>
-    [] Mode = "step" -> <<Build(1, c[1])>>
+    [] Mode \in {"step", "serial"} -> <<Build(1, c[1])>>
+    [] Mode = "legal" -> <<>>
     [] Mode = "agg" -> <<Build(1, c[1]), Build(2, c[2]), Build(3, c[3])>>
     [] Mode = "hist" -> <<>>
 
@@ -126,17 +144,13 @@ Prefix(c) ==
 EmitStep ==
   \/ Mode = "hist"
   \/ PrintT(ToJson([st |-> Struct, calls |-> Prefix(content) \o hist']))
-\* one line per completed history (hist mode) -- used as CONSTRAINT, always TRUE
-EmitHist ==
-  \/ Mode # "hist" \/ Len(hist) < Depth
-  \/ PrintT(ToJson([st |-> Struct, calls |-> hist]))
 
 \* ---- properties checked on the model ----------------------------------------------------------------
 TypeOK == content \in [Slots -> SUBSET A]
 
 \* Only the target of a call changes (the behavioural half of C07; read-only-ness of queries, C03).
 OnlyTargetChanges ==
-  [][\A s \in Slots : s # Target(hist'[Len(hist')]) => content'[s] = content[s]]_vars
+  [][hist'[Len(hist')].op # "End" => \A s \in Slots : s # Target(hist'[Len(hist')]) => content'[s] = content[s]]_vars
 
 \* Results of queries are mutually consistent on every reachable state (C03/C15 sanity of the oracle).
 QueriesConsistent ==
